@@ -57,6 +57,8 @@ def build_nfa(spec):
             delta[q, a] = shared[key]
         else:
             delta[q, a] = _set(T)
+    for q, a in spec.get('stray_keys', ()):
+        delta[q, a] = set()
     if 'empty_keys' in spec:
         # exact reconstruction of a live object's mapping (see rebuild_hints): keys with empty target sets as they were
         for q, a in spec['empty_keys']:
@@ -152,9 +154,16 @@ def snapshot(obj):
                 'delta': sorted([_s(q), _s(a), _s(q1)] for (q, a), q1 in obj.delta.items()),
                 'q0': _s(obj.q0), 'F': sorted(_s(q) for q in obj.F)}
     if isinstance(obj, NFA):
-        return {'kind': 'nfa', 'Q': sorted(_s(q) for q in obj.Q), 'Sigma': sorted(_s(a) for a in obj.Sigma),
+        snap = {'kind': 'nfa', 'Q': sorted(_s(q) for q in obj.Q), 'Sigma': sorted(_s(a) for a in obj.Sigma),
                 'delta': sorted([_s(q), _s(a), sorted(_s(t) for t in T)] for (q, a), T in obj.delta.items() if len(T) > 0),
                 'q0': _s(obj.q0), 'F': sorted(_s(q) for q in obj.F), 'eps': _s(obj.epsilon)}
+        # an empty entry is not content (a defaultdict grows when it is read) - unless its key names a state or a
+        # symbol the automaton does not have: the class invariant looks at every key, so that IS observable
+        stray = sorted([str(q), str(a)] for (q, a), T in obj.delta.items()
+                       if len(T) == 0 and (q not in obj.Q or (a not in obj.Sigma and a != obj.epsilon)))
+        if stray:
+            snap['stray_keys'] = stray
+        return snap
     if isinstance(obj, PDA):
         return {'kind': 'pda', 'Q': sorted(_s(q) for q in obj.Q), 'Sigma': sorted(_s(a) for a in obj.Sigma),
                 'Gamma': sorted(_s(a) for a in obj.Gamma),
